@@ -48,7 +48,8 @@ fn transform(src: &str) -> String {
         let l = line
             .replace("core::sync::atomic", "crate::shim::atomic")
             .replace("rusl::futex", "crate::shim::futex")
-            .replace("core::hint::spin_loop", "crate::shim::spin_loop");
+            .replace("core::hint::spin_loop", "crate::shim::spin_loop")
+            .replace("core::hint", "crate::shim::hint");
         out.push_str(&l);
         out.push('\n');
     }
@@ -81,7 +82,7 @@ fn main() {
     };
     let sync = sync.replacen("pub(crate) mod rwlock {\n", &format!("pub(crate) mod rwlock {{\n{extra}"), 1);
     let all = format!("#[allow(dead_code, unused_imports, clippy::all)]\npub mod sync {{\n{sync}\n}}\n");
-    for forbidden in ["core::sync::atomic", "rusl::futex", "core::hint::spin_loop", "std::sync", "std::thread"] {
+    for forbidden in ["core::sync::atomic", "rusl::futex", "core::hint", "std::sync", "std::thread", "std::hint"] {
         assert!(!all.contains(forbidden), "generated lock sources still contain `{forbidden}`: the substitution no longer covers the repository text");
     }
     for required in ["crate::shim::atomic", "crate::shim::futex", "futex_wait_fast"] {
